@@ -25,7 +25,10 @@ SCALAR_T = {"float16": onp.float16, "float32": onp.float32, "float64": onp.float
 
 def gen_struct(c, depth):
     """A JSON-able structure description."""
-    k = c.int(0, 9) if depth > 0 else c.int(0, 5)
+    k = c.int(0, 10) if depth > 0 else c.int(0, 5)
+    if k == 10:
+        # the result objects of numpy.linalg (named tuples since NumPy 2), each of which has a vector space of its own
+        return ["linalg_result", c.choice(["eigh", "eig", "qr", "slogdet", "svd"]), c.int(1, 2)]
     if k == 0:
         return ["pyfloat"]
     if k == 1:
@@ -66,6 +69,12 @@ def make(struct, c, key_order=None, scale=1.0):
         if struct[1] in ("longdouble", "clongdouble") and scale != 1.0:
             a = a * onp.longdouble(2.0) ** -600  # exact scaling; <x,x> = O(2^-1200) is far below the float64 range
         return a
+    if t == "linalg_result":
+        kind, n = struct[1], struct[2]
+        cls = type(getattr(onp.linalg, kind)(onp.eye(2)))
+        shapes = {"eigh": [(n,), (n, n)], "eig": [(n,), (n, n)], "qr": [(n, n), (n, n)], "slogdet": [(), ()], "svd": [(n, n), (n,), (n, n)]}[kind]
+        parts = [onp.array([dyadic(c) for _ in range(int(onp.prod(sh)) if sh else 1)], dtype=float).reshape(sh) for sh in shapes]
+        return cls(*parts) if cls is not tuple else tuple(parts)
     kids = [make(k, c, scale=scale) for k in struct[1]]
     if t == "tuple":
         return tuple(kids)
@@ -261,6 +270,14 @@ def perturb(struct, c):
             sh[i] = sh[i] + 1
             return ["array", struct[1], sh]
         return ["array", struct[1], sh + [1]]
+    if t == "linalg_result":
+        # another result type with the same field shapes (eigh <-> eig), another size, or a plain tuple
+        kind, n = struct[1], struct[2]
+        if k == 0 and kind in ("eigh", "eig"):
+            return ["linalg_result", "eig" if kind == "eigh" else "eigh", n]
+        if k == 1:
+            return ["linalg_result", kind, n + 1] if kind != "slogdet" else ["linalg_result", "qr", n]
+        return ["tuple", [["array", "float64", [n]], ["array", "float64", [n, n]]]]
     kids = struct[1]
     if k == 0 or not kids:
         return [{"tuple": "list", "list": "tuple", "dict": "list"}[t], kids]
